@@ -298,6 +298,51 @@ func enumerate(x string, perSite int) []fault {
 			out = append(out, fault{kind: "duplicate:" + what + v.tag, text: strings.Join(nl, "\n")})
 		}
 	}
+	// definitions removed: the uses stay, the line that defines the name goes (a single definition, and all
+	// definitions of a kind at once, so that the module has no definition of that kind at all)
+	remCount := map[string]int{}
+	var allOf = map[string][]int{}
+	for li, line := range lines {
+		what := ""
+		switch {
+		case strings.HasPrefix(line, "%") && strings.Contains(line, "= type"):
+			what = "type"
+		case strings.HasPrefix(line, "$") && strings.Contains(line, "= comdat"):
+			what = "comdat"
+		case strings.HasPrefix(line, "@") && (strings.Contains(line, " global ") || strings.Contains(line, " constant ")) && !isNumberedGlobal(line):
+			what = "global"
+		case strings.HasPrefix(line, "declare ") && !regexp.MustCompile(` @\d+\(`).MatchString(line):
+			what = "function-declaration"
+		case strings.HasPrefix(line, "!") && len(line) > 1 && line[1] >= '0' && line[1] <= '9' && strings.Contains(line, " = "):
+			what = "metadata-id"
+		}
+		if what == "" {
+			continue
+		}
+		allOf[what] = append(allOf[what], li)
+		if remCount[what] >= perSite {
+			continue
+		}
+		remCount[what]++
+		nl := append(append([]string{}, lines[:li]...), lines[li+1:]...)
+		out = append(out, fault{kind: "removed-definition:" + what, text: strings.Join(nl, "\n")})
+	}
+	for _, what := range []string{"comdat", "type", "metadata-id"} {
+		if len(allOf[what]) < 2 {
+			continue
+		}
+		drop := map[int]bool{}
+		for _, li := range allOf[what] {
+			drop[li] = true
+		}
+		var nl []string
+		for li, line := range lines {
+			if !drop[li] {
+				nl = append(nl, line)
+			}
+		}
+		out = append(out, fault{kind: "removed-definition:every-" + what, text: strings.Join(nl, "\n")})
+	}
 	out = append(out, collisions(x, toks, perSite)...)
 	return out
 }
